@@ -52,7 +52,7 @@ func init() {
 			if m.C("formatter_inputs") < 1000 {
 				u = append(u, "formatter on fewer than 1000 inputs")
 			}
-			for _, c := range []string{"relayout_minimal", "relayout_random_ws", "relayout_comments", "relayout_directive_after_first", "formatter_unparseable_inputs", "infix_programs", "formatter_string_sensitive"} {
+			for _, c := range []string{"relayout_minimal", "relayout_random_ws", "relayout_comments", "relayout_directive_after_first", "formatter_unparseable_inputs", "infix_programs", "formatter_string_sensitive", "formatter_glued_literal_inputs", "formatter_arbitrary_inputs_that_compile"} {
 				if m.C(c) == 0 {
 					u = append(u, c+" = 0")
 				}
@@ -222,14 +222,44 @@ func c14Run(w *W, idx int) {
 	default:
 		// formatter on arbitrary (mostly unparseable) inputs: token preservation only
 		var base string
-		if r.Intn(2) == 0 {
+		switch r.Intn(3) {
+		case 0:
 			t, _ := c13Tree(r, r.Intn(8))
 			base = mutateSource(r, t.Prefix(), w)
-		} else {
+		case 1:
+			// a well-formed program whose string literals are glued to the token before them (no separator): whatever
+			// the lexer makes of that, the formatter must make the same of it
+			t, _ := c13Tree(r, r.Intn(8))
+			base = t.Prefix()
+			for _, sep := range []string{" \"", "\n\""} {
+				if r.Intn(4) != 0 {
+					base = strings.ReplaceAll(base, sep, "\"")
+				}
+			}
+			w.Inc("formatter_glued_literal_inputs")
+		default:
 			base = fragmentSoup(r)
 		}
-		c14Formatter(w, nil, base, false, "mutated")
+		out, fine := c14Formatter(w, nil, base, false, "mutated")
 		w.Inc("formatter_unparseable_inputs")
+		if fine {
+			// whatever Compile makes of the input, it makes the same of the formatted text
+			cc := eval.NewConfig(eval.EnableUndefinedVariable)
+			for n, op := range stdCustom {
+				cc.OperatorMap[n] = wrapCustom(op, nil)
+			}
+			a, ok1 := c14Compile(w, cc, base, "an arbitrary input")
+			b, ok2 := c14Compile(w, cc, out, "the formatted arbitrary input")
+			if ok1 && ok2 {
+				w.Inc("formatter_arbitrary_inputs_compiled_both_ways")
+				if a.err == nil {
+					w.Inc("formatter_arbitrary_inputs_that_compile")
+				}
+				if (a.err == nil) != (b.err == nil) || (a.err == nil && a.dump != b.dump) {
+					w.Fail("formatting-changes-program/arbitrary-input", "Compile makes something else of the formatted text than of the input\ninput:  %q (%v)\noutput: %q (%v)\ndump before: %s\ndump after:  %s", firstN(base, 1500), a.err, firstN(out, 1500), b.err, oneLine(a.dump), oneLine(b.dump))
+				}
+			}
+		}
 		return
 	}
 	w.Inc("programs")
@@ -321,14 +351,14 @@ type c14FmtCtx struct {
 	origRes []Outcome
 }
 
-func c14Formatter(w *W, fc *c14FmtCtx, in string, compiles bool, strat string) {
+func c14Formatter(w *W, fc *c14FmtCtx, in string, compiles bool, strat string) (string, bool) {
 	w.Inc("formatter_inputs")
 	var out string
 	fo := guard(func() (eval.Value, error) { out = eval.IndentByParentheses(in); return nil, nil })
 	w.Evals++
 	if fo.Panic != nil {
 		w.Fail("formatter-panic/"+normPanic(fo.Panic)+"@"+panicSite(fo.Stack), "IndentByParentheses panicked: %v\ninput: %q\n%s", fo.Panic, firstN(in, 2000), fo.Stack)
-		return
+		return out, false
 	}
 	t1, e1 := indepLex(in)
 	t2, e2 := indepLex(out)
@@ -340,19 +370,19 @@ func c14Formatter(w *W, fc *c14FmtCtx, in string, compiles bool, strat string) {
 	}
 	if (e1 == nil) != (e2 == nil) || !toksEqual(t1, t2, true) {
 		w.Fail("formatter-changes-tokens/"+strat, "IndentByParentheses output does not have the tokens and comments of its input\ninput:  %q\noutput: %q\ninput tokens:  %v (%v)\noutput tokens: %v (%v)", firstN(in, 1500), firstN(out, 1500), firstNToks(t1), e1, firstNToks(t2), e2)
-		return
+		return out, false
 	}
 	// formatting the output again: tokens again preserved (formatter applied repeatedly)
 	var out2 string
 	fo2 := guard(func() (eval.Value, error) { out2 = eval.IndentByParentheses(out); return nil, nil })
 	if fo2.Panic != nil {
 		w.Fail("formatter-panic/"+normPanic(fo2.Panic)+"@"+panicSite(fo2.Stack), "IndentByParentheses panicked on its own output: %v\ninput: %q", fo2.Panic, firstN(out, 2000))
-		return
+		return out, false
 	}
 	t3, e3 := indepLex(out2)
 	if (e1 == nil) != (e3 == nil) || !toksEqual(t1, t3, true) {
 		w.Fail("formatter-changes-tokens/twice", "IndentByParentheses applied twice does not keep the tokens and comments\ninput:  %q\nonce:   %q\ntwice:  %q", firstN(in, 1500), firstN(out, 1500), firstN(out2, 1500))
-		return
+		return out, false
 	}
 	if out2 == out {
 		w.Inc("formatter_fixed_point")
@@ -360,20 +390,20 @@ func c14Formatter(w *W, fc *c14FmtCtx, in string, compiles bool, strat string) {
 		w.Inc("formatter_not_fixed_point")
 	}
 	if fc == nil || !compiles {
-		return
+		return out, true
 	}
 	for _, text := range []string{out, out2} {
 		c, ok := c14Compile(w, fc.cc, text, "formatter output")
 		if !ok {
-			return
+			return out, false
 		}
 		if c.err != nil {
 			w.Fail("formatted-does-not-compile/"+strat, "formatter output does not compile: %v\ninput:  %q\noutput: %q", c.err, firstN(in, 1500), firstN(text, 1500))
-			return
+			return out, false
 		}
 		if c.dump != fc.orig.dump {
 			w.Fail("formatting-changes-program/"+strat, "formatting changed the compiled program\ninput:  %q\noutput: %q\ndump before: %s\ndump after:  %s", firstN(in, 1500), firstN(text, 1500), oneLine(fc.orig.dump), oneLine(c.dump))
-			return
+			return out, false
 		}
 		for i, b := range fc.bs {
 			o, _ := callExpr(c.e, CallEval, fetcherFor(b, nil), nil, false)
@@ -384,6 +414,7 @@ func c14Formatter(w *W, fc *c14FmtCtx, in string, compiles bool, strat string) {
 			}
 		}
 	}
+	return out, true
 }
 
 func firstNToks(t []Tok) string {
